@@ -75,4 +75,92 @@ theorem parseFast_eq (dec : Bytes → Dec) (s : Bytes) : parseFast dec s = parse
   rw [parseAcc_eq dec s.length s [] (Nat.le_refl _)]
   rfl
 
+theorem utf16FormatAcc_eq : ∀ (fuel : Nat) (s acc : Bytes),
+    utf16FormatAcc fuel s acc = (utf16FormatAux fuel s).map (fun out => acc.reverse ++ out) := by
+  intro fuel
+  induction fuel with
+  | zero =>
+    intro s acc
+    cases s with
+    | nil => simp [utf16FormatAcc, utf16FormatAux]
+    | cons b t => simp [utf16FormatAcc, utf16FormatAux]
+  | succ f ih =>
+    intro s acc
+    cases s with
+    | nil => simp [utf16FormatAcc, utf16FormatAux]
+    | cons bt rest =>
+      unfold utf16FormatAcc utf16FormatAux
+      by_cases hb : bt < 0x80
+      · rw [if_pos hb, if_pos hb]
+        cases escu bt with
+        | none => rfl
+        | some d =>
+          simp only []
+          rw [ih]
+          cases utf16FormatAux f rest with
+          | none => rfl
+          | some r => simp [List.reverse_append, List.append_assoc]
+      · rw [if_neg hb, if_neg hb]
+        rcases Utf8.decodeRune (bt :: rest) with ⟨c, size⟩
+        simp only []
+        cases utf16FormatRune c with
+        | none => rfl
+        | some d =>
+          simp only []
+          rw [ih]
+          cases utf16FormatAux f ((bt :: rest).drop size) with
+          | none => rfl
+          | some r => simp [List.reverse_append, List.append_assoc]
+
+theorem unicodeFormatAcc_eq : ∀ (fuel : Nat) (s acc : Bytes),
+    unicodeFormatAcc fuel s acc = (unicodeFormatAux fuel s).map (fun out => acc.reverse ++ out) := by
+  intro fuel
+  induction fuel with
+  | zero =>
+    intro s acc
+    cases s with
+    | nil => simp [unicodeFormatAcc, unicodeFormatAux]
+    | cons b t => simp [unicodeFormatAcc, unicodeFormatAux]
+  | succ f ih =>
+    intro s acc
+    cases s with
+    | nil => simp [unicodeFormatAcc, unicodeFormatAux]
+    | cons bt rest =>
+      unfold unicodeFormatAcc unicodeFormatAux
+      by_cases hb : bt < 0x80
+      · rw [if_pos hb, if_pos hb]
+        cases escU bt with
+        | none => rfl
+        | some d =>
+          simp only []
+          rw [ih]
+          cases unicodeFormatAux f rest with
+          | none => rfl
+          | some r => simp [List.reverse_append, List.append_assoc]
+      · rw [if_neg hb, if_neg hb]
+        rcases Utf8.decodeRune (bt :: rest) with ⟨c, size⟩
+        simp only []
+        by_cases hc : c = Utf8.runeError
+        · rw [if_pos hc, if_pos hc, ih]
+          cases unicodeFormatAux f ((bt :: rest).drop size) with
+          | none => rfl
+          | some r => simp [List.reverse_append, List.append_assoc]
+        · rw [if_neg hc, if_neg hc]
+          cases escU c.toNat with
+          | none => rfl
+          | some d =>
+            simp only []
+            rw [ih]
+            cases unicodeFormatAux f ((bt :: rest).drop size) with
+            | none => rfl
+            | some r => simp [List.reverse_append, List.append_assoc]
+
+theorem formatFast_eq (s : Bytes) :
+    unicodeFormatFast s = unicodeFormat s ∧ utf16FormatFast s = utf16Format s := by
+  unfold unicodeFormatFast utf16FormatFast unicodeFormat utf16Format
+  rw [unicodeFormatAcc_eq, utf16FormatAcc_eq]
+  constructor
+  · cases unicodeFormatAux s.length s <;> simp
+  · cases utf16FormatAux s.length s <;> simp
+
 end Golib.C07
